@@ -5,6 +5,7 @@
 #![allow(dead_code)]
 
 mod edges;
+mod etf;
 mod frag;
 mod io;
 mod term_json;
@@ -18,6 +19,9 @@ fn main() {
     let rest = &args[2..];
     let rc = match args[1].as_str() {
         "frag-edges" => frag::run_edges(rest),
+        "etf-obs" => etf::run_obs(rest),
+        "etf-random" => etf::run_random(rest),
+        "id-twins" => etf::run_id_twins(rest),
         other => {
             eprintln!("unknown subcommand {other}");
             2
